@@ -685,7 +685,10 @@ type Line struct {
 }
 
 func NewLine(r *prng.Rand) *Line {
-	switch r.Intn(5) {
+	switch r.Intn(6) {
+	case 5: // -alpha + exp(K (alpha - m)): gentle descent, then an exponentially steep wall
+		K := r.LogUniform(5, 200)
+		return &Line{"exp-wall", []float64{K, (math.Log(K)+1)/K + r.LogUniform(0.05, 10)}}
 	case 0: // a (alpha - m)^2
 		return &Line{"quadratic", []float64{r.LogUniform(0.01, 100), r.LogUniform(0.001, 1000)}}
 	case 1: // (alpha-m)^4 + b (alpha-m)^2
@@ -719,6 +722,11 @@ func (l *Line) Eval(a float64) (f, g, fAbs, gAbs float64) {
 		dA := math.Abs(a) + m
 		ch, sh := math.Cosh(b*d), math.Sinh(b*d)
 		return ch, b * sh, ch + b*math.Abs(sh)*dA, b*math.Abs(sh) + b*b*ch*dA
+	case "exp-wall":
+		K, m := l.P[0], l.P[1]
+		e := math.Exp(K * (a - m))
+		cond := K * (math.Abs(a) + m) // conditioning of exp(K(a-m))
+		return -a + e, -1 + K*e, math.Abs(a) + e*(1+cond), 1 + K*e*(1+cond)
 	case "more-thuente-1":
 		be := l.P[0]
 		q := a*a + be
@@ -748,6 +756,11 @@ func (l *Line) AD(alpha ad.ConstScalar) ad.MagicScalar {
 		t.Sub(alpha, cf(l.P[1]))
 		t.Mul(t, cf(l.P[0]))
 		y.Cosh(t)
+	case "exp-wall":
+		t.Sub(alpha, cf(l.P[1]))
+		t.Mul(t, cf(l.P[0]))
+		t.Exp(t)
+		y.Sub(t, alpha)
 	case "more-thuente-1":
 		t.Mul(alpha, alpha)
 		t.Add(t, cf(l.P[0]))
